@@ -840,6 +840,12 @@ class ContractSet:
             lc = base.loops.get(k) if base is not None else None
         if lc is None:
             return None
+        want = lc.get("match")
+        if want:
+            src = ast.unparse(node.iter if isinstance(node, (ast.For, ast.AsyncFor)) else node.test)
+            if want not in src:
+                raise Unsupported(f"loop contract {c.target}.loop{k} expects a loop over `{want}` but the loop at line {node.lineno} is over `{src}` "
+                                  f"(the function's loops changed; the contract must be re-attached)")
         return (c, k, lc)
 
     @staticmethod
